@@ -1527,7 +1527,9 @@ impl BinOp {
 
     pub fn is_symmetric(&self) -> bool {
         match self {
-            Self::Or
+            // `&&` and `||` short-circuit: their operands must never be swapped
+            Self::And
+            | Self::Or
             | Self::LtInt
             | Self::LtEqInt
             | Self::GtEqInt
@@ -1535,7 +1537,7 @@ impl BinOp {
             | Self::SubInt
             | Self::ModInt
             | Self::DivInt => false,
-            Self::And | Self::Eq | Self::NotEq | Self::AddInt | Self::MultInt => true,
+            Self::Eq | Self::NotEq | Self::AddInt | Self::MultInt => true,
         }
     }
 }
